@@ -35,7 +35,13 @@ def build_plan(choice: Choice, tier):
     n = d(9, "init.n")
     if "MemoryMapped" in p["variant"] and n == 0:
         n = 1
-    p["init"] = [f"{i}|{WORDS[d(len(WORDS), 'init.word')]}" for i in range(n)]
+    huge = d(40, "init.huge") == 39
+    if huge:
+        # many short lines: line counts around powers of two (block-wise processing of lines), few operations
+        n = [4095, 4096, 4097, 8193][d(4, "init.huge.n")]
+        p["init"] = [f"{i}|h" for i in range(n)]
+    else:
+        p["init"] = [f"{i}|{WORDS[d(len(WORDS), 'init.word')]}" for i in range(n)]
     if n and d(8, "init.long") == 7:
         p["init"][d(n, "init.long.at")] += "L" * 9000
     p["final_nl"] = d(3, "init.final_nl") != 0 or (n > 0 and p["init"][-1] == "")
@@ -58,6 +64,8 @@ def build_plan(choice: Choice, tier):
         return v
 
     n_ops = 1 + d(14 if tier == "quick" else 24, "ops")
+    if huge:
+        n_ops = 1 + d(3, "ops.huge")
     for _ in range(n_ops):
         k = d(23, "op")
         if k == 0:
@@ -462,8 +470,12 @@ class Spec:
         choice = Choice(run_seed, replay)
         plan = build_plan(choice, tier)
         tmpdir = tempfile.mkdtemp(prefix="verif-c12-")
+        from sim.coop import StepCap
         try:
             viol, sched, fp, stats = execute(plan, choice, tmpdir, trace)
+        except StepCap:
+            shutil.rmtree(tmpdir, ignore_errors=True)
+            emit({"verdict": "inconclusive"})
         finally:
             shutil.rmtree(tmpdir, ignore_errors=True)
         probes = {"save": stats["saves"], "edit": stats["edits"], "faulted-save": stats["faulted_saves"],
